@@ -77,7 +77,7 @@ def contiguous(writes):
     return start, pos - start
 
 
-def strace_check(c, d, W, app_exe, drv, V):
+def strace_check(c, d, W, app_exe, drv, V, open_exe=None, st=None, dims=None):
     fn = os.path.join(W, "st.bin")
     log = os.path.join(W, "strace.log")
     res = dict(available=False)
@@ -107,9 +107,65 @@ def strace_check(c, d, W, app_exe, drv, V):
         if not ok:
             c.corr_break("append is not one ascending contiguous run of writes starting at the old trailer",
                          dict(writes=writes[:8], want=want, trunc=trunc, flags=flags))
+        if open_exe is not None and napp in (1, 3):
+            observed_order_restart(c, W, app_exe, open_exe, before, after, writes, nsteps, napp == 1, st, dims)
     res["appends_checked"] = napp
     res["append_flags"] = flags
     return res
+
+
+def observed_order_restart(c, W, app_exe, open_exe, before, after, writes, nsteps, first, st, dims):
+    """crash images built from the write sequence the real code was OBSERVED to perform (strace: offsets and sizes in
+    time order; contents from the file after the append), not from the sequence the model assumes; each image is
+    restarted with the real code (load last snapshot, redo the steps, append; then one more append) and must expose
+    the same snapshots as the uninterrupted run.  Covers the first delta append of a one-snapshot archive."""
+    nb = len(ac.parse_archive(before))
+    ref = os.path.join(W, "oo_ref.bin")
+    open(ref, "wb").write(before)
+    subprocess.run([app_exe, ref, str(nsteps)], capture_output=True)
+    subprocess.run([app_exe, ref, "5"], capture_output=True)
+    cuts = []
+    for j, (off, n) in enumerate(writes):
+        content = after[off:off + n]
+        ks = {1, 4, 8, 12, 13, 16, 20, 24, 28, n // 2, max(1, n - 12), max(1, n - 4), n - 1}
+        if j > 0:
+            ks.add(0)
+        zeros = [k for k in range(4, n) if content[k - 4:k] == bytes(4)]
+        ks |= set(zeros[:4] + zeros[len(zeros) // 2:len(zeros) // 2 + 3] + zeros[-3:])
+        is_last = j == len(writes) - 1
+        for k in sorted(ks):
+            if 0 <= k < n or (k == n and not is_last):
+                cuts.append((j, k))
+    total = sum(n for _, n in writes)
+    imgs = []
+    for j, k in cuts:
+        img = bytearray(before)
+        for jj, (off, n) in enumerate(writes[:j + 1]):
+            m = n if jj < j else k
+            if len(img) < off + m:
+                img.extend(bytes(off + m - len(img)))
+            img[off:off + m] = after[off:off + m]
+        p = os.path.join(W, "oo_%d_%d.bin" % (j, k))
+        open(p, "wb").write(bytes(img))
+        r1 = subprocess.run([app_exe, p, str(nsteps)], capture_output=True)
+        r2 = subprocess.run([app_exe, p, "5"], capture_output=True)
+        imgs.append((j, k, p, r1.returncode, r2.returncode))
+    res = run_batch(open_exe, [(p, ref) for _, _, p, _, _ in imgs] + [(ref, ref)])
+    vref = view_of(res[-1])
+    key = "restart:observed_write_order_" + ("first_append" if first else "later_append")
+    for (j, k, p, rc1, rc2), r in zip(imgs, res[:-1]):
+        vw = view_of(r)
+        dims[key] = dims.get(key, 0) + 1
+        c.count(("observed-order", first, j, k))
+        st["observed_order_images"] += 1
+        ok = vw[0] == "ok" and vref[0] == "ok" and vw[1] == vref[1] and all(x in (1, 2) for x in vw[5]) and rc1 == 0 and rc2 == 0
+        if not ok:
+            c.violation("restart-differs:observed-write-order", "crash in the %s append after %d of %d bytes of write %d (observed order %s), restart, two more appends: "
+                        "archive exposes %s, uninterrupted run %s" % ("FIRST delta" if first else "a later", k, writes[j][1], j, writes, vw[:2], vref[:2]),
+                        dict(writes=writes, cut_write=j, cut_bytes=k, nsteps=nsteps, complete_before=nb, restart_rc=(rc1, rc2), exposed=vw[:2], uninterrupted=vref[:2],
+                             recipe="c07_append --fresh f; [appends]; truncate/overlay per observed order; c07_append f n; c07_append f 5; open"))
+            break
+        os.remove(p)
 
 
 # ------------------------------------------------------------------------------------------- images
@@ -330,10 +386,13 @@ def _run(c, d, rebound, drv, open_exe, app_exe, W):
                       "restart theorem needs NoFakeTrailer: the interrupted write leaves no bytes that read as END header ++ trailer where the repair walk looks (evaluated on every image by the driver)"]
     st = dict(archives=0, appends=0, plan_equal=0, images=0, images_first=0, model_equal=0, py_images=0, restarts=0, restart_equal=0,
               restart_bytes_equal=0, chains=0, chain_links=0, nofake_true=0, nofake_false=0, chain_nofake_true=0, chain_nofake_false=0, died=0, f2_images=0, hazards=0, exhaustive_appends=0,
-              auto_restarts=0)
+              auto_restarts=0, observed_order_images=0)
     cutclass = {}
     nofake_false_classes = {}
-    c.cov["strace"] = strace_check(c, d, W, app_exe, drv, V)
+    dims = {}
+    c.cov["strace"] = strace_check(c, d, W, app_exe, drv, V, open_exe, st, dims)
+    if c.cov["strace"].get("available"):
+        dims["tie:strace_write_pattern"] = c.cov["strace"].get("appends_checked", 0)
     t_start = time.time()
     budget = (20 * 60) if c.thorough else 80
     narch = 200 if c.thorough else 40
@@ -343,8 +402,10 @@ def _run(c, d, rebound, drv, open_exe, app_exe, W):
     ai = 0
     while ai < narch and time.time() - t_start < budget * 0.6:
         rng = c.rng.fork()
-        kind = ai % 4
-        if kind == 3 and v[0]:
+        kind = ai % 5
+        if kind == 4:
+            hist = ac.gen_history(rng, 3, structural="lazy_arrays", variant=6 * (ai // 5))
+        elif kind == 3 and v[0]:
             hist = ac.gen_history(rng, rng.randint(3, 6), structural=rng.choice(["reset_after_whfast", "remove_all", "shrink_zero_reappear", "grow_first"]))
         elif kind == 2:
             hist = gen_restart_history(rng)
@@ -370,6 +431,11 @@ def _run(c, d, rebound, drv, open_exe, app_exe, W):
             shutil.rmtree(wd, ignore_errors=True)      # F1 territory: the uninterrupted archive itself is garbled (C06)
             continue
         st["archives"] += 1
+        dims["archive_integrator:" + hist["init"]["integrator"]] = dims.get("archive_integrator:" + hist["init"]["integrator"], 0) + 1
+        if hist.get("tag"):
+            dims["archive_lazy_arrays:" + hist["tag"]] = dims.get("archive_lazy_arrays:" + hist["tag"], 0) + 1
+        if hist["structural"] in ("reset_after_whfast", "remove_all", "shrink_zero_reappear", "lazy_arrays"):
+            dims["archive:array_vanishes"] = dims.get("archive:array_vanishes", 0) + 1
         exhaustive = c.thorough and (time.time() - t_start < exhaustive_budget)
         # --- first snapshot: images are prefixes of s0
         s0 = open(os.path.join(wd, "a0.bin"), "rb").read()
@@ -438,6 +504,11 @@ def _run(c, d, rebound, drv, open_exe, app_exe, W):
                     cls = "append:" + ("complete" if full else "offset_next" if 8 < k < 12 else "old-trailer" if k <= 8 else
                                        "new-trailer" if k >= len(data) - 12 else "END" if k >= len(data) - 28 else "delta")
                 cutclass[cls] = cutclass.get(cls, 0) + 1
+                dims["cut:" + cls] = dims.get("cut:" + cls, 0) + 1
+                if not fresh:
+                    dk = "cut:first_delta_append" if j == 1 else "cut:later_append"
+                    dims[dk] = dims.get(dk, 0) + 1
+                dims["reader:C_API"] = dims.get("reader:C_API", 0) + 1
                 c.count((cls, j, hist["structural"] or "free", hist["init"]["integrator"]), nontrivial=True)
                 # NoFakeTrailer (hypothesis of the restart theorem) evaluated by the model on this image
                 nf = mvk.split(":")[-1]
@@ -495,6 +566,7 @@ def _run(c, d, rebound, drv, open_exe, app_exe, W):
                     os.remove(out)
                 rc = ac.fork_run(py_open, rebound, ip, final, out)
                 st["py_images"] += 1
+                dims["reader:Python_class"] = dims.get("reader:Python_class", 0) + 1
                 full = (k == len(data))
                 want_n = (0 if fresh else j) + (1 if full else 0)
                 rep = dict(history=hist, append=j, cut=k, of=len(data), py_rc=rc)
@@ -524,11 +596,26 @@ def _run(c, d, rebound, drv, open_exe, app_exe, W):
     # ------------------------------------------------------------------ the contrived fake-trailer image (once per run)
     fake_trailer_case(c, rebound, drv, V, os.path.join(W, "fake"), st)
     # ------------------------------------------------------------------ automatic cadence: crash + restart
-    na = 12 if c.thorough else 3
+    na = 12 if c.thorough else 4
     for i in range(na):
         if time.time() - t_start > budget:
             break
-        auto_restart_case(c, rebound, open_exe, c.rng.fork(), os.path.join(W, "auto%d" % i), st)
+        auto_restart_case(c, rebound, open_exe, c.rng.fork(), os.path.join(W, "auto%d" % i), st, dims, i)
+    dims["restart:manual_history"] = st["restarts"] - st["auto_restarts"]
+    dims["restart:chain"] = st["chains"]
+    dims["restart:model_bytes_equal"] = st["restart_bytes_equal"]
+    dims["nofake_trailer_evaluated"] = st["nofake_true"] + st["nofake_false"]
+    dims["fake_trailer_replayed"] = 1 if st.get("fake_trailer") else 0
+    c.cov["dimensions"] = dict(sorted(dims.items()))
+    required = ["cut:first:body", "cut:first:END", "cut:first:trailer", "cut:first:complete", "cut:append:old-trailer", "cut:append:offset_next",
+                "cut:append:delta", "cut:append:END", "cut:append:new-trailer", "cut:append:complete", "cut:first_delta_append", "cut:later_append",
+                "reader:C_API", "reader:Python_class", "restart:manual_history", "restart:chain", "restart:auto_interval", "restart:auto_step",
+                "restart:auto_backward", "restart:observed_write_order_first_append", "restart:observed_write_order_later_append",
+                "tie:strace_write_pattern", "nofake_trailer_evaluated", "fake_trailer_replayed", "archive:array_vanishes"]
+    missing = [d_ for d_ in required if not dims.get(d_)]
+    c.cov["dimensions_missing"] = missing
+    if missing:
+        c.broken.append("dimension(s) not covered: %s" % ", ".join(missing))
     c.cov.update(st)
     c.cov["cut_class_histogram"] = cutclass
     c.cov["nofake_false_by_cut_class"] = nofake_false_classes
@@ -733,13 +820,14 @@ def fake_trailer_case(c, rebound, drv, V, wd, st):
             c.violation(K_FAKE, "restart from a crash image whose last 28 bytes imitate END + trailer appends behind the interrupted write: %s" % json.dumps(det)[:200], st["fake_trailer"])
 
 
-def auto_restart_case(c, rebound, open_exe, rng, wd, st):
+def auto_restart_case(c, rebound, open_exe, rng, wd, st, dims, idx):
     """automatic cadence: uninterrupted run vs crash in the middle + restart (cadence state is persisted)"""
     os.makedirs(wd, exist_ok=True)
     integ = rng.choice(["whfast", "leapfrog", "saba", "eos", "janus"])
-    mode = rng.choice(["interval", "step"])
-    dt = 0.01
-    val = dt * rng.choice([2.0, 3.0, 5.5]) if mode == "interval" else rng.randint(2, 5)
+    mode = ["interval", "step", "interval", "step"][idx % 4]
+    back = (idx % 4 == 2) or (idx % 4 == 3 and idx >= 4)
+    dt = -0.01 if back else 0.01
+    val = abs(dt) * rng.choice([2.0, 3.0, 5.5]) if mode == "interval" else rng.randint(2, 5)
     tmax = dt * rng.randint(30, 60)
     parts = [ac.gen_particle(rng, star=True)] + [ac.gen_particle(rng) for _ in range(2)]
     full = os.path.join(wd, "full.bin")
@@ -784,7 +872,10 @@ def auto_restart_case(c, rebound, open_exe, rng, wd, st):
         sim.integrate(tmax, exact_finish_time=0)
     rc = ac.fork_run(restart)
     st["auto_restarts"] += 1
-    c.count(("auto-restart", mode, integ))
+    c.count(("auto-restart", mode, integ, back))
+    dims["restart:auto_" + mode] = dims.get("restart:auto_" + mode, 0) + 1
+    if back:
+        dims["restart:auto_backward"] = dims.get("restart:auto_backward", 0) + 1
     rep = dict(integrator=integ, mode=mode, value=val, tmax=tmax, particles=parts, crashed_blob=j, cut=k, rc=rc)
     if rc != 0:
         c.violation("auto-restart-died", "restart of an automatic archive from a crash image kills the process (status %s)" % rc, rep)
